@@ -16,7 +16,8 @@ ROOT = os.path.dirname(os.path.dirname(os.path.abspath(__file__)))
 
 FINDINGS = [
     # C03 -------------------------------------------------------------------------------------------------
-    ("C03", "C03/ensemble_mean/weighted-mean", "'weighted' in case.get('features', [])",
+    ("C03", "C03/ensemble_mean/weighted-mean",
+     "'weighted' in case.get('features', []) and (case.get('family') == 'mean-probe' or case.get('path') in ('ctf-spread', 'ctf-cutoff'))",
      "non-uniform distribution weights are ignored in ensemble means except for aberration coefficients on the apply_ctf path "
      "(Probe normalises every member after the weights were multiplied in; BeamTilt/Aperture/envelopes discard the weights) — design-level, not a small repair"),
     # C04 -------------------------------------------------------------------------------------------------
